@@ -704,6 +704,20 @@ func (b *failingBody) Read(p []byte) (int, error) {
 // c09Uploads: request bodies that break off with an IO error (connection reset, body limit of an interceptor) at
 // every kind of position, and query strings with parts that are legal but odd (no value, no name, stray separators)
 // beside a message that decodes and carries a signature.
+// cancelAtEOF is a request body after whose last byte the client goes away.
+type cancelAtEOF struct {
+	r      io.Reader
+	cancel context.CancelFunc
+}
+
+func (c *cancelAtEOF) Read(p []byte) (int, error) {
+	n, err := c.r.Read(p)
+	if err == io.EOF {
+		c.cancel()
+	}
+	return n, err
+}
+
 func c09Uploads(r *core.Run, idx int, rng *rand.Rand) {
 	const wl = "broken_uploads_and_odd_queries"
 	e := c09World()
@@ -745,6 +759,60 @@ func c09Uploads(r *core.Run, idx int, rng *rand.Rand) {
 		judge("upload_with_wrong_length|"+p.name, map[string]any{"endpoint": p.name}, c)
 		r.Count("uploads_of_unknown_length", 1)
 	}
+	// the client goes away (the request's context is cancelled) at every kind of moment: before the handler starts,
+	// when the body has just been read, inside the k-th storage call. Valid and undecodable messages alike.
+	gone := 0
+	mredir := &spsim.RedirectMsg{Param: "SAMLRequest", Value: spsim.DeflateB64(a.XML(rng)), RelayState: "r", HasRelay: true, Pct: spsim.PctGo}
+	lredir := &spsim.RedirectMsg{Param: "SAMLRequest", Value: spsim.DeflateB64(l.XML(rng)), RelayState: "r", HasRelay: true, Pct: spsim.PctGo}
+	type greq struct{ name, method, path, ct, query, body string }
+	greqs := []greq{
+		{"sso_query", "GET", env.PathSSO, "", mredir.RawQuery(), ""},
+		{"logout_query", "GET", env.PathSLO, "", lredir.RawQuery(), ""},
+		{"sso_query_undecodable", "GET", env.PathSSO, "", "SAMLRequest=%21%21", ""},
+		{"logout_query_undecodable", "GET", env.PathSLO, "", "SAMLRequest=AAAA", ""},
+		{"callback_query", "GET", env.PathLogin, "", "id=unknown", ""},
+		{"metadata", "GET", env.PathMetadata, "", "", ""},
+		{"certificate", "GET", env.PathCert, "", "", ""},
+	}
+	for _, p := range posts {
+		greqs = append(greqs, greq{p.name, "POST", p.path, p.ct, "", p.body})
+	}
+	for _, g := range greqs {
+		for moment := 0; moment <= 6; moment++ {
+			ctx, cancel := context.WithCancel(context.Background())
+			rq := env.Req{Method: g.method, Path: g.path, CT: g.ct, Query: g.query, Ctx: ctx}
+			what := ""
+			switch {
+			case moment == 0:
+				what = "before the handler starts"
+				cancel()
+				rq.Body = g.body
+			case moment == 1:
+				if g.body == "" {
+					cancel()
+					continue
+				}
+				what = "when the body has been read"
+				rq.BodyReader, rq.BodyLen = &cancelAtEOF{r: strings.NewReader(g.body), cancel: cancel}, int64(len(g.body))
+			default:
+				k := moment - 1
+				what = fmt.Sprintf("inside storage call %d", k)
+				rq.Body = g.body
+				n := 0
+				e.W.Before = func(context.Context, string, string, int) {
+					if n++; n == k {
+						cancel()
+					}
+				}
+			}
+			c := e.Do(rq)
+			e.W.Before = nil
+			cancel()
+			judge("client_gone|"+g.name, map[string]any{"endpoint": g.name, "client_went_away": what}, c)
+			gone++
+		}
+	}
+	r.Count("requests_whose_client_went_away", int64(gone))
 	// odd query parts beside a signed (or unsigned) message on the redirect binding
 	odd := []string{"nocache", "&", "&&", "=", "=x", "x=", "%", "a=%zz", "%zz=a", ";", "a;b=c", "&=&", "?", "#", "SAMLRequest", "Signature", "SigAlg", "RelayState", "SAMLEncoding", "+", "a=b=c", "\u00e4", "a[]=1", "=" + strings.Repeat("A", 3000)}
 	for _, signed := range []bool{true, false} {
